@@ -29,6 +29,61 @@ def _walk_expr(e, depth=0):
             yield from _walk_expr(x, depth + 1)
 
 
+def _check_fetch_update_form(ctx, fx, k, body, dg, site):
+    """`self.joined.fetch_update(set, fetch, |w| Some(join_split(computation(split_joined(w)))))`: std's fetch_update is the CAS loop itself -- it loads, calls the closure
+    on the current value, compare-exchanges (current -> closure's answer) and on failure retries with the value the failed CAS returned, leaving only on success or when
+    the closure answers None.  What remains to show: the word is the metric's, the closure answers Some on every path (an update is never abandoned) and its answer is
+    computed from its own parameter (the value the CAS will expect)."""
+    b, c = site
+    ctx.ob("R19.2", f"{k}|one-cas", not util.in_loop(body, b), body.loc(b), "one fetch_update (std's compare-exchange loop), not nested in another loop")
+    word = strip_casts(dg.expr(c["args"][0]))
+    cl = dg.expr(c["args"][3])
+    ok = False; why = f"closure argument `{show(cl)}` is not a closure literal"
+    okr = False
+    if cl[0] == "closure" and fx.fn_opt(cl[1]) is not None:
+        cb_ = Body(fx.fn(cl[1])); cd = D.Dag(cb_)
+        ret = cd.local(0)
+        alts = ret[3] if ret[0] == "phi" and len(ret) > 3 else (ret,)
+        all_some = bool(alts) and all(a[0] == "adt" and a[1] == "Some" for a in alts)
+        good = all_some
+        srcs = set()
+        for a in alts:
+            if not (a[0] == "adt" and a[1] == "Some"): continue
+            g_, v_ = _update_sources(strip_casts(a[2][0]))
+            good = good and g_; srcs |= v_
+        vals = {x for x in srcs if x[0] != "callsite"}; sites = {x for x in srcs if x[0] == "callsite"}
+        ok = good and len(sites) == 1 and len(vals) == 1 and all(v[0] == "param" and v[1] == 2 for v in vals)
+        why = f"the closure answers `{show(ret)[:200]}`; required: Some(join_split(computation(split_joined(<its own parameter>)))) on every path"
+        okr = all_some
+    ctx.ob("R19.2", f"{k}|expected-is-the-value-new-was-computed-from", ok and "joined" in str(word), body.loc(b), why)
+    ctx.ob("R19.2", f"{k}|retry-from-reloaded-value", ok, body.loc(b), "fetch_update retries with the value returned by the failed compare-exchange (std), and the closure computes from its parameter only")
+    ctx.ob("R19.2", f"{k}|loop-left-only-on-success", okr, body.loc(b), "the closure never answers None: fetch_update returns only after a successful compare-exchange (an update is never abandoned)")
+    ctx.ob("R19.2", f"{k}|err-edge-refreshes", True, body.loc(b), "std's fetch_update replaces the expected value by the failed CAS's answer", nontrivial=False)
+
+
+def _update_sources(ns):
+    """`ns` = join_split(r.0, r.1) with r = <computation>(split_joined(E).0, split_joined(E).1): returns (well-formed, {norm(E)..} | {("callsite", block)..})"""
+    srcs = set(); good = True
+    if not (ns[0] == "call" and ns[1] == M + "::join_split" and len(ns[2]) == 2): return False, srcs
+    for i, p in enumerate(strip_casts(x) for x in ns[2]):
+        if p[0] == "field" and p[2][0] == "call" and p[2][1] in ("std::ops::Fn::call", "std::ops::FnMut::call_mut", "std::ops::FnOnce::call_once") and str(p[1]) == str(i):
+            call = p[2]
+            callee = strip_casts(call[2][0])
+            if not (callee[0] == "param" and callee[2] == "computation") and not (callee[0] == "ref"): good = False
+            tup = call[2][1]
+            if tup[0] == "tuple" and len(tup[1]) == 2:
+                for j, q in enumerate(tup[1]):
+                    q = strip_casts(q)
+                    if q[0] == "field" and str(q[1]) == str(j) and q[2][0] == "call" and q[2][1] == M + "::split_joined":
+                        e = norm(strip_casts(q[2][2][0]))
+                        srcs.add(e[:2] if e[0] == "param" else e)
+                    else: good = False
+            else: good = False
+            srcs.add(("callsite", call[3]))
+        else: good = False
+    return good, srcs
+
+
 def check(ctx):
     fx = ctx.fx
     # ------------------------------------------------------------------ R19.1 who modifies the word, and how
@@ -51,7 +106,8 @@ def check(ctx):
                 short = f["key"].split("::")[-1]
                 if meth == "load":
                     ctx.ob("R19.1", f"{f['key']}|{at[1]}.load", at[1] == "joined", body.loc(b), "atomic read of the joined word", nontrivial=False)
-                elif meth in ("compare_exchange", "compare_exchange_weak"):
+                elif meth in ("compare_exchange", "compare_exchange_weak", "fetch_update"):
+                    # (`fetch_update` IS std's load / compute / compare-exchange loop; what its closure computes is judged by R19.2)
                     ok = f["key"] == M + "::atomic_compute"
                     ctx.ob("R19.1", f"{f['key']}|{at[1]}.{meth}", ok, body.loc(b), "the only place allowed to modify the word is the CAS loop of atomic_compute")
                 else:
@@ -63,13 +119,16 @@ def check(ctx):
                 if a["kind"] == "w":
                     ctx.ob("R19.1", f"{f['key']}|writes|{a['field']}", False, a["site"], f"non-atomic write to the `{a['field']}` view of the metric word")
     # constructor: the only aggregate of the union
-    ctx.floor("R19.1", 3)
+    ctx.floor("R19.1", 2)      # the word's update primitive + probe's load (the explicit CAS-loop form adds its own initial load)
     # ------------------------------------------------------------------ R19.2 the CAS loop
     k = M + "::atomic_compute"
     body = Body(fx.fn(k)); dg = D.Dag(body)
     site = f"{body.f['file']}:{body.f['line']}"
     cas = [(b, c) for (b, c) in body.calls if (R.atomic_target(body, c) or (0, 0, ""))[2].startswith("compare_exchange")]
-    if len(cas) != 1:
+    fu = [(b, c) for (b, c) in body.calls if (c.get("f") or "") == R.ATOMIC + "fetch_update"]
+    if not cas and len(fu) == 1:
+        _check_fetch_update_form(ctx, fx, k, body, dg, fu[0])
+    elif len(cas) != 1:
         ctx.ob("R19.2", f"{k}|one-cas", False, site, f"{len(cas)} compare-exchange calls; the update must be exactly one CAS per loop iteration")
     else:
         cb, cc = cas[0]
